@@ -351,7 +351,7 @@ func (vc *FuncVC) storeLeaf(st *State, key string, idx Term, v Term) {
 // Loop heads keep the bits they had on entry (bits only ever go from false to true, so this is sound).
 
 func (vc *FuncVC) initDef() {
-	if vc.L.layer1 || (len(vc.fc.Outs) == 0 && len(vc.fc.Reads) == 0) {
+	if vc.L.layer1 || (len(vc.fc.Outs) == 0 && len(vc.fc.Reads) == 0 && len(vc.fc.OutFields) == 0) {
 		return
 	}
 	vc.defKeys = map[string]bool{}
@@ -411,6 +411,14 @@ func (vc *FuncVC) initDef() {
 	for name := range restricted {
 		pv := vc.params[name]
 		poison(name, pv, func(key string, addr Term) bool { return !readSet[key+"@"+addr.S] })
+	}
+	for _, ox := range vc.fc.OutFields {
+		for _, lf := range vc.lvalue(e0, ox) {
+			if _, seen := byKey[lf.Key]; !seen {
+				korder = append(korder, lf.Key)
+				byKey[lf.Key] = nil
+			}
+		}
 	}
 	sort.Strings(korder)
 	for _, key := range korder {
@@ -1161,7 +1169,7 @@ func (vc *FuncVC) enterLoop(h *ssa.BasicBlock, order []*ssa.BasicBlock) {
 	envIn := vc.env(stIn, vc.withLocals(vc.loopVars(h, func(p *ssa.Phi) *Val { return entryPhis[p] })))
 	for j, inv := range vc.fc.Invs[k] {
 		t := envIn.boolean(inv.E)
-		vc.oblige("L", fmt.Sprintf("loop%d/inv%d/entry", k, j+1), reach, t, clauseTags(inv, tags), h.Instrs[0].Pos(), inv.Src)
+		vc.oblige("L", fmt.Sprintf("loop%d/inv%d/entry", k, j+1), reach, t, vc.loopTags(k, clauseTags(inv, tags)), h.Instrs[0].Pos(), inv.Src)
 	}
 	// 2. discovery pass: which locations does the body write?
 	body := vc.loopBody[h]
@@ -1277,6 +1285,21 @@ func clauseTags(c *Clause, def []string) []string {
 	return def
 }
 
+// loopTags: the invariants of a loop whose termination is claimed (measure or error exit) carry that claim: they are C04 obligations too.
+func (vc *FuncVC) loopTags(k int, tags []string) []string {
+	if vc.fc.Decr[k] == nil && vc.fc.ErrExit[k] == nil {
+		return tags
+	}
+	for _, t := range tags {
+		if t == "C04" {
+			return tags
+		}
+	}
+	out := append(append([]string{}, tags...), "C04")
+	sort.Strings(out)
+	return out
+}
+
 // backEdgeChecks: invariants preserved and measure decreases along u -> h.
 func (vc *FuncVC) backEdgeChecks(u, h *ssa.BasicBlock, cond Term) {
 	k := vc.loopOrd[h]
@@ -1297,7 +1320,7 @@ func (vc *FuncVC) backEdgeChecks(u, h *ssa.BasicBlock, cond Term) {
 	tags := vc.propTags()
 	for j, inv := range vc.fc.Invs[k] {
 		t := env.boolean(inv.E)
-		vc.oblige("L", fmt.Sprintf("loop%d/inv%d/preserved@b%d", k, j+1, u.Index), cond, t, clauseTags(inv, tags), h.Instrs[0].Pos(), inv.Src)
+		vc.oblige("L", fmt.Sprintf("loop%d/inv%d/preserved@b%d", k, j+1, u.Index), cond, t, vc.loopTags(k, clauseTags(inv, tags)), h.Instrs[0].Pos(), inv.Src)
 	}
 	if ee := vc.fc.ErrExit[k]; ee != nil {
 		// error-exit: the loop is only repeated while no error is pending in the ErrDecimal
